@@ -128,15 +128,17 @@ def qubit_cycle_prog(rng):
 
 def graph_prog(rng):
     """a random heap graph of plain nodes (three links and a link to an observable object) and observable
-    objects (user destructor; they link back to plain nodes): some nodes stay held by main, the rest become garbage when
+    objects (a user destructor of their own, inherited, or inherited under a `= default` redeclaration; they link back to plain nodes): some nodes stay held by main, the rest become garbage when
     mk returns - garbage cycles, garbage pointing at live objects, garbage reaching an observable object directly, through
     other garbage, through a live object, or not at all"""
     np_, no_ = rng.randint(3, 8), rng.randint(0, 3)
     src = ("class O { public int id; public P back; public constructor(int id) -> O { this.id = id; this.back = null; return this; } "
            "public destructor() -> O { echo(\"~O \" + this.id); } }\n"
+           "class O2 extends O { public constructor(int id) -> O2 { super(id); return this; } public destructor() -> O2 = default; }\n"
+           "class O3 extends O { public constructor(int id) -> O3 { super(id); return this; } }\n"
            "class P { public P a; public P b; public O o; public P c; public constructor() -> P { this.a = null; this.b = null; this.c = null; this.o = null; return this; } }\n"
            "class Junk { public constructor() -> Junk = default; }\n")
-    body = ["P n%d = new P();" % i for i in range(np_)] + ["O o%d = new O(%d);" % (i, i) for i in range(no_)]
+    body = ["P n%d = new P();" % i for i in range(np_)] + ["O o%d = new %s(%d);" % (i, rng.choice(["O", "O2", "O3"]), i) for i in range(no_)]
     plain = ["n%d" % i for i in range(np_)] + ["keep"]
     obs_rate = rng.choice([0.0, 0.04, 0.1, 0.22])       # how often a link involves an observable object
     obs = ["o%d" % i for i in range(no_)] + ["keepo"]
@@ -158,7 +160,7 @@ def graph_prog(rng):
         x = rng.randrange(np_)
         body += ["o0.back = n%d;" % x, "n%d.o = o0;" % x]
     mk = "function mk(P keep, O keepo) -> void {\n  " + "\n  ".join(body) + "\n}\n"
-    main = ["P live = new P();", "O lo = new O(99);", "mk(live, lo);",
+    main = ["P live = new P();", "O lo = new %s(99);" % rng.choice(["O", "O2", "O3"]), "mk(live, lo);",
             "for (int i = 0; i < %d; i = i + 1) { Junk j = new Junk(); }" % rng.choice([0, 3, 25])]
     if rng.random() < 0.4:
         main.append("live.a = null; live.b = null;")
